@@ -143,6 +143,10 @@ func (e *Env) buildDid(op *Op, a *Actor) (*Built, string) {
 		if op.Mis == "eip155mixed" {
 			accountDid = acc.Did + "ethmix"
 		}
+		if op.Mis == "rebind" {
+			// an account that is bound already is bound once more under a further account did
+			accountDid = acc.Did + "again"
+		}
 		m := &didtypes.MsgBinding{
 			Creator: a.AddrS, AccountId: accId, RootDocId: root, Keys: keys,
 			AccountAuth: &didtypes.AccountAuth{AccountDid: accountDid, AccountEncryptedSeed: "seed-" + acc.Name, SidEncryptedAccount: "enc-" + acc.Name},
